@@ -87,24 +87,78 @@ static const int INPLACE_OPS[] = { I44_TRANSLATE, I44_TRANSLATE, I44_SCALE, I44_
 static const double C09_ROT_K1 = 6, C09_ROT_K2 = 6;
 
 // scale factor for the rotation-entry term of the bound when the parameter type S differs from T (see the top of this file)
-template <class T, class S> static inline double rot_scale (double angle_abs, bool angle_rounded_to_T)
+template <class T, class S> static inline double rot_scale_ (double, bool, std::true_type) { return 1; }
+template <class T, class S> static inline double rot_scale_ (double angle_abs, bool angle_rounded_to_T, std::false_type)
 {
-    if constexpr (std::is_integral<S>::value)
-        return 1;
-    else
+    double es = FInfo<S>::eps (), et = FInfo<T>::eps ();
+    double r  = es > et ? es / et : 1.0;
+    if (angle_rounded_to_T && es < et) r += angle_abs;
+    return r;
+}
+template <class T, class S> static inline double rot_scale (double angle_abs, bool angle_rounded_to_T) { return rot_scale_<T, S> (angle_abs, angle_rounded_to_T, std::is_integral<S> ()); }
+
+// Generator policy of the original sub-checks (inplace_*, inplace_mixed_*): the draw sequence is exactly the one the
+// saved replays were recorded with.  inplace_structured_* uses InplaceGenNear (further down) with the same checks.
+struct InplaceGenDefault
+{
+    template <class M, class T, int N> int matrix (vp::Ctx& c, M& m) { return gen_matrix<M, T, N> (c.s, m); }
+    template <class S> Vec3<S>             param3 (vp::Ctx& c) { return gen_param3<S> (c.s); }
+    template <class S> Vec2<S>             param2 (vp::Ctx& c) { return gen_param2<S> (c.s); }
+    template <class S> S                   param (vp::Ctx& c) { return gen_param_any<S> (c.s); }
+    template <class S> Vec3<S>             angle3 (vp::Ctx& c) { return gen_angle3<S> (c.s); }
+    template <class S> S                   angle (vp::Ctx& c) { return gen_angle<S> (c.s); }
+};
+
+// the three rotation forms; no integral angles (std::true_type overloads do nothing: the op was remapped before)
+template <class T, class S, class P> static void inplace_rot44 (vp::Ctx&, P&, Matrix44<T>&, const Matrix44<T>&, const char*, const std::string&, std::true_type) {}
+template <class T, class S, class P> static void inplace_rot44 (vp::Ctx& c, P& pol, Matrix44<T>& m4, const Matrix44<T>& b4, const char* sn, const std::string& par, std::false_type)
+{
+    Vec3<S> a = pol.template angle3<S> (c);
+    if (std::fabs (a.x) > 3.2 || std::fabs (a.y) > 3.2 || std::fabs (a.z) > 3.2)
     {
-        double es = FInfo<S>::eps (), et = FInfo<T>::eps ();
-        double r  = es > et ? es / et : 1.0;
-        if (angle_rounded_to_T && es < et) r += angle_abs;
-        return r;
+        c.label (IL_MULTIPERIOD);
+        c.nt ();
     }
+    VP_NOTE (c, TN<T>::n () << par << "M44.rotate r=" << vstr (a, 3) << " M=" << mstr (b4, 4));
+    const Matrix44<T>& r = m4.rotate (a);
+    VP_REQUIRE (c, &r == &m4, "m44-rotate/returns-this", "does not return *this");
+    check_inplace<T, 4> (c, "m44-rotate", b4, m4, E_euler ((quad) a.x, (quad) a.y, (quad) a.z), false, C09_ROT_K1, C09_ROT_K2 * rot_scale<T, S> (0, false), sn);
+}
+template <class T, class S, class P> static void inplace_rot33 (vp::Ctx&, P&, Matrix33<T>&, const Matrix33<T>&, const char*, const std::string&, std::true_type) {}
+template <class T, class S, class P> static void inplace_rot33 (vp::Ctx& c, P& pol, Matrix33<T>& m3, const Matrix33<T>& b3, const char* sn, const std::string& par, std::false_type)
+{
+    S ang = pol.template angle<S> (c);
+    if (std::fabs (ang) > 3.2)
+    {
+        c.label (IL_MULTIPERIOD);
+        c.nt ();
+    }
+    VP_NOTE (c, TN<T>::n () << par << "M33.rotate r=" << ang << " M=" << mstr (b3, 3));
+    const Matrix33<T>& r = m3.rotate (ang);
+    VP_REQUIRE (c, &r == &m3, "m33-rotate/returns-this", "does not return *this");
+    check_inplace<T, 3> (c, "m33-rotate", b3, m3, E_rot33 ((quad) ang), true, 4, 4 * rot_scale<T, S> (std::fabs ((double) ang), true), sn);
+}
+template <class T, class S, class P> static void inplace_rot22 (vp::Ctx&, P&, Matrix22<T>&, const Matrix22<T>&, const char*, const std::string&, std::true_type) {}
+template <class T, class S, class P> static void inplace_rot22 (vp::Ctx& c, P& pol, Matrix22<T>& m2, const Matrix22<T>& b2, const char* sn, const std::string& par, std::false_type)
+{
+    S ang = pol.template angle<S> (c);
+    if (std::fabs (ang) > 3.2)
+    {
+        c.label (IL_MULTIPERIOD);
+        c.nt ();
+    }
+    VP_NOTE (c, TN<T>::n () << par << "M22.rotate r=" << ang << " M=" << mstr (b2, 2));
+    const Matrix22<T>& r = m2.rotate (ang);
+    VP_REQUIRE (c, &r == &m2, "m22-rotate/returns-this", "does not return *this");
+    check_inplace<T, 2> (c, "m22-rotate", b2, m2, E_rot22 ((quad) ang), true, 4, 4 * rot_scale<T, S> (std::fabs ((double) ang), true), sn);
 }
 
-template <class T, class S = T> static void inplace_case (vp::Ctx& c)
+template <class T, class S, class P> static void inplace_ops (vp::Ctx& c, P& pol)
 {
     vp::Src&             s       = c.s;
     constexpr bool       s_int   = std::is_integral<S>::value;
     constexpr bool       mixed   = !std::is_same<S, T>::value;
+    typedef std::integral_constant<bool, s_int> SInt;
     const char*          sn      = mixed ? TN<S>::n () : "";
     const std::string    par     = mixed ? std::string (" <") + TN<S>::n () + "> " : std::string (" ");
     int                  op      = s.pick (INPLACE_OPS);
@@ -117,17 +171,17 @@ template <class T, class S = T> static void inplace_case (vp::Ctx& c)
     int         kind;
     if (op <= I44_ROTATE)
     {
-        kind = gen_matrix<Matrix44<T>, T, 4> (s, m4);
+        kind = pol.template matrix<Matrix44<T>, T, 4> (c, m4);
         b4   = m4;
     }
     else if (op <= I33_ROTATE)
     {
-        kind = gen_matrix<Matrix33<T>, T, 3> (s, m3);
+        kind = pol.template matrix<Matrix33<T>, T, 3> (c, m3);
         b3   = m3;
     }
     else
     {
-        kind = gen_matrix<Matrix22<T>, T, 2> (s, m2);
+        kind = pol.template matrix<Matrix22<T>, T, 2> (c, m2);
         b2   = m2;
     }
     c.label (kind == 0 ? IL_IDENTITY : kind == 1 ? IL_AFFINE : IL_NONAFFINE);
@@ -136,7 +190,7 @@ template <class T, class S = T> static void inplace_case (vp::Ctx& c)
     {
         case I44_TRANSLATE:
         {
-            Vec3<S> t = gen_param3<S> (s);
+            Vec3<S> t = pol.template param3<S> (c);
             VP_NOTE (c, TN<T>::n () << par << "M44.translate t=" << vstr (t, 3) << " M=" << mstr (b4, 4));
             const Matrix44<T>& r = m4.translate (t);
             VP_REQUIRE (c, &r == &m4, "m44-translate/returns-this", "does not return *this");
@@ -146,7 +200,7 @@ template <class T, class S = T> static void inplace_case (vp::Ctx& c)
         }
         case I44_SCALE:
         {
-            Vec3<S> sc = gen_param3<S> (s);
+            Vec3<S> sc = pol.template param3<S> (c);
             VP_NOTE (c, TN<T>::n () << par << "M44.scale s=" << vstr (sc, 3) << " M=" << mstr (b4, 4));
             const Matrix44<T>& r = m4.scale (sc);
             VP_REQUIRE (c, &r == &m4, "m44-scale/returns-this", "does not return *this");
@@ -156,7 +210,7 @@ template <class T, class S = T> static void inplace_case (vp::Ctx& c)
         }
         case I44_SHEAR_VEC3:
         {
-            Vec3<S> h = gen_param3<S> (s);
+            Vec3<S> h = pol.template param3<S> (c);
             VP_NOTE (c, TN<T>::n () << par << "M44.shear(Vec3) h=" << vstr (h, 3) << " M=" << mstr (b4, 4));
             const Matrix44<T>& r = m4.shear (h);
             VP_REQUIRE (c, &r == &m4, "m44-shear(Vec3)/returns-this", "does not return *this");
@@ -167,7 +221,7 @@ template <class T, class S = T> static void inplace_case (vp::Ctx& c)
         {
             S h[6];
             for (int i = 0; i < 6; ++i)
-                h[i] = gen_param_any<S> (s);
+                h[i] = pol.template param<S> (c);
             Shear6<S> sh (h[0], h[1], h[2], h[3], h[4], h[5]);
             VP_NOTE (c, TN<T>::n () << par << "M44.shear(Shear6) xy=" << h[0] << " xz=" << h[1] << " yz=" << h[2] << " yx=" << h[3] << " zx=" << h[4] << " zy=" << h[5] << " M=" << mstr (b4, 4));
             const Matrix44<T>& r = m4.shear (sh);
@@ -175,25 +229,10 @@ template <class T, class S = T> static void inplace_case (vp::Ctx& c)
             check_inplace<T, 4> (c, "m44-shear(Shear6)", b4, m4, E_shear44 ((quad) h[0], (quad) h[1], (quad) h[2], (quad) h[3], (quad) h[4], (quad) h[5]), false, 6, 0, sn);
             break;
         }
-        case I44_ROTATE:
-        if constexpr (!s_int)
-        {
-            Vec3<S> a = gen_angle3<S> (s);
-            if (std::fabs (a.x) > 3.2 || std::fabs (a.y) > 3.2 || std::fabs (a.z) > 3.2)
-            {
-                c.label (IL_MULTIPERIOD);
-                c.nt ();
-            }
-            VP_NOTE (c, TN<T>::n () << par << "M44.rotate r=" << vstr (a, 3) << " M=" << mstr (b4, 4));
-            const Matrix44<T>& r = m4.rotate (a);
-            VP_REQUIRE (c, &r == &m4, "m44-rotate/returns-this", "does not return *this");
-            check_inplace<T, 4> (c, "m44-rotate", b4, m4, E_euler ((quad) a.x, (quad) a.y, (quad) a.z), false, C09_ROT_K1, C09_ROT_K2 * rot_scale<T, S> (0, false), sn);
-            break;
-        }
-            break;
+        case I44_ROTATE: inplace_rot44<T, S> (c, pol, m4, b4, sn, par, SInt ()); break;
         case I33_TRANSLATE:
         {
-            Vec2<S> t = gen_param2<S> (s);
+            Vec2<S> t = pol.template param2<S> (c);
             VP_NOTE (c, TN<T>::n () << par << "M33.translate t=" << vstr (t, 2) << " M=" << mstr (b3, 3));
             const Matrix33<T>& r = m3.translate (t);
             VP_REQUIRE (c, &r == &m3, "m33-translate/returns-this", "does not return *this");
@@ -203,7 +242,7 @@ template <class T, class S = T> static void inplace_case (vp::Ctx& c)
         }
         case I33_SCALE:
         {
-            Vec2<S> sc = gen_param2<S> (s);
+            Vec2<S> sc = pol.template param2<S> (c);
             VP_NOTE (c, TN<T>::n () << par << "M33.scale s=" << vstr (sc, 2) << " M=" << mstr (b3, 3));
             const Matrix33<T>& r = m3.scale (sc);
             VP_REQUIRE (c, &r == &m3, "m33-scale/returns-this", "does not return *this");
@@ -213,7 +252,7 @@ template <class T, class S = T> static void inplace_case (vp::Ctx& c)
         }
         case I33_SHEAR_SCALAR:
         {
-            S xy = gen_param_any<S> (s);
+            S xy = pol.template param<S> (c);
             VP_NOTE (c, TN<T>::n () << par << "M33.shear(scalar) xy=" << xy << " M=" << mstr (b3, 3));
             const Matrix33<T>& r = m3.shear (xy);
             VP_REQUIRE (c, &r == &m3, "m33-shear(scalar)/returns-this", "does not return *this");
@@ -222,48 +261,18 @@ template <class T, class S = T> static void inplace_case (vp::Ctx& c)
         }
         case I33_SHEAR_VEC2:
         {
-            Vec2<S> h = gen_param2<S> (s);
+            Vec2<S> h = pol.template param2<S> (c);
             VP_NOTE (c, TN<T>::n () << par << "M33.shear(Vec2) h=" << vstr (h, 2) << " M=" << mstr (b3, 3));
             const Matrix33<T>& r = m3.shear (h);
             VP_REQUIRE (c, &r == &m3, "m33-shear(Vec2)/returns-this", "does not return *this");
             check_inplace<T, 3> (c, "m33-shear(Vec2)", b3, m3, E_shear33 ((quad) h.x, (quad) h.y), false, 5, 0, sn);
             break;
         }
-        case I33_ROTATE:
-        if constexpr (!s_int)
-        {
-            S ang = gen_angle<S> (s);
-            if (std::fabs (ang) > 3.2)
-            {
-                c.label (IL_MULTIPERIOD);
-                c.nt ();
-            }
-            VP_NOTE (c, TN<T>::n () << par << "M33.rotate r=" << ang << " M=" << mstr (b3, 3));
-            const Matrix33<T>& r = m3.rotate (ang);
-            VP_REQUIRE (c, &r == &m3, "m33-rotate/returns-this", "does not return *this");
-            check_inplace<T, 3> (c, "m33-rotate", b3, m3, E_rot33 ((quad) ang), true, 4, 4 * rot_scale<T, S> (std::fabs ((double) ang), true), sn);
-            break;
-        }
-            break;
-        case I22_ROTATE:
-        if constexpr (!s_int)
-        {
-            S ang = gen_angle<S> (s);
-            if (std::fabs (ang) > 3.2)
-            {
-                c.label (IL_MULTIPERIOD);
-                c.nt ();
-            }
-            VP_NOTE (c, TN<T>::n () << par << "M22.rotate r=" << ang << " M=" << mstr (b2, 2));
-            const Matrix22<T>& r = m2.rotate (ang);
-            VP_REQUIRE (c, &r == &m2, "m22-rotate/returns-this", "does not return *this");
-            check_inplace<T, 2> (c, "m22-rotate", b2, m2, E_rot22 ((quad) ang), true, 4, 4 * rot_scale<T, S> (std::fabs ((double) ang), true), sn);
-            break;
-        }
-            break;
+        case I33_ROTATE: inplace_rot33<T, S> (c, pol, m3, b3, sn, par, SInt ()); break;
+        case I22_ROTATE: inplace_rot22<T, S> (c, pol, m2, b2, sn, par, SInt ()); break;
         default:
         {
-            Vec2<S> sc = gen_param2<S> (s);
+            Vec2<S> sc = pol.template param2<S> (c);
             VP_NOTE (c, TN<T>::n () << par << "M22.scale s=" << vstr (sc, 2) << " M=" << mstr (b2, 2));
             const Matrix22<T>& r = m2.scale (sc);
             VP_REQUIRE (c, &r == &m2, "m22-scale/returns-this", "does not return *this");
@@ -272,6 +281,11 @@ template <class T, class S = T> static void inplace_case (vp::Ctx& c)
             break;
         }
     }
+}
+template <class T, class S = T> static void inplace_case (vp::Ctx& c)
+{
+    InplaceGenDefault pol;
+    inplace_ops<T, S> (c, pol);
 }
 
 #define C09_INPLACE_RULE                                                                                               \
@@ -321,3 +335,142 @@ VP_REQUIRE_LABELS (inplace_mixed_f, C09_INPLACE_LABELS, "param_wider_float(doubl
 VP_RANDOM (inplace_mixed_d, 400000, 6000000, C09_MIXED_RULE) { inplace_mixed_case<double> (c); }
 VP_LABELS (inplace_mixed_d, C09_MIXED_LABELS)
 VP_REQUIRE_LABELS (inplace_mixed_d, C09_INPLACE_LABELS, "param_narrower_float(float on double matrix)", "param_int", "param_short")
+
+// ---- structured current matrices and near-special parameters ------------------------------------------------------
+// Classes of input at which an implementation could plausibly take a shortcut ("the current matrix is the identity /
+// affine / has a zero entry", "the parameter is zero / one", "the angle is zero / a quarter turn"): the inputs sit AT
+// the special case and at perturbations of it of relative size 2^-k, k = 4 .. digits+3, next to magnitudes up to
+// 2^20, so that ignoring the small term is wrong by far more than the conditioning-scaled bound of check_inplace.
+// The labels of the near / structured classes follow the labels of the host sub-check, starting at id l0.
+enum
+{
+    NL_BASE0, // + SB_ class (11 bases)
+    NL_MASKED = NL_BASE0 + (int) SB_NBASES,
+    NL_EIJ_LAST_COLUMN,
+    NL_EIJ_LAST_ROW,
+    NL_P_ZERO,
+    NL_P_TINY,
+    NL_P_NEAR_ONE,
+    NL_P_UNIT,
+    NL_P_BIG,
+    NL_A_ZERO,
+    NL_A_TINY,
+    NL_A_NEAR_QUARTER,
+    NL_AXIS_NEAR_UNIT,
+    NL_S_SAME,
+    NL_COUNT
+};
+#define C09_NEAR_LABELS                                                                                                \
+    "matrix_identity", "matrix_identity_plus_2^-k_Eij", "matrix_unit_lower_triangular", "matrix_unit_upper_triangular", "matrix_signed_permutation", "matrix_diagonal", "matrix_affine_zero_translation", "matrix_near_identity_translation_2^20", "matrix_projective_column_last_row_0001", "matrix_identity_plus_one_offdiagonal", "matrix_generic", "matrix_mask_0_1_-1_generic_applied", "Eij_in_last_column", "Eij_in_last_row", "param_zero", "param_2^-k", "param_+-1+-2^-k", "param_+-1", "param_up_to_2^20", "angle_zero", "angle_2^-k", "angle_j*pi/2+-2^-k", "axis_length_1+-2^-k", "param_same_type"
+template <class M, class T, int N> static inline int near_matrix (vp::Ctx& c, M& m, int l0)
+{
+    int  base, eij;
+    bool masked;
+    int  kind = gen_structured<M, T, N> (c.s, m, base, masked, eij);
+    c.label (l0 + NL_BASE0 + base);
+    if (masked) c.label (l0 + NL_MASKED);
+    if (eij >= 0 && N > 2 && eij % N == N - 1 && eij / N != N - 1) c.label (l0 + NL_EIJ_LAST_COLUMN);
+    if (eij >= 0 && N > 2 && eij / N == N - 1 && eij % N != N - 1) c.label (l0 + NL_EIJ_LAST_ROW);
+    c.nt (masked || eij >= 0);
+    return kind;
+}
+static inline void near_param_label (vp::Ctx& c, int cls, int l0)
+{
+    if (cls == NP_ZERO) c.label (l0 + NL_P_ZERO);
+    if (cls == NP_TINY) c.label (l0 + NL_P_TINY);
+    if (cls == NP_NEAR_ONE) c.label (l0 + NL_P_NEAR_ONE);
+    if (cls == NP_UNIT) c.label (l0 + NL_P_UNIT);
+    if (cls == NP_BIG) c.label (l0 + NL_P_BIG);
+    c.nt (cls == NP_TINY || cls == NP_NEAR_ONE);
+}
+static inline void near_angle_label (vp::Ctx& c, int cls, int l0)
+{
+    if (cls == NP_ZERO) c.label (l0 + NL_A_ZERO);
+    if (cls == NP_TINY) c.label (l0 + NL_A_TINY);
+    if (cls == NP_NEAR_ONE) c.label (l0 + NL_A_NEAR_QUARTER);
+    c.nt (cls == NP_TINY || cls == NP_NEAR_ONE);
+}
+struct InplaceGenNear
+{
+    int l0;
+    template <class M, class T, int N> int matrix (vp::Ctx& c, M& m) { return near_matrix<M, T, N> (c, m, l0); }
+    template <class S> S                   param (vp::Ctx& c)
+    {
+        int cls;
+        S   v = gen_near_param<S> (c.s, cls);
+        near_param_label (c, cls, l0);
+        return v;
+    }
+    template <class S> Vec3<S> param3 (vp::Ctx& c)
+    {
+        Vec3<S> v;
+        for (int i = 0; i < 3; ++i)
+            v[i] = param<S> (c);
+        return v;
+    }
+    template <class S> Vec2<S> param2 (vp::Ctx& c)
+    {
+        Vec2<S> v;
+        for (int i = 0; i < 2; ++i)
+            v[i] = param<S> (c);
+        return v;
+    }
+    template <class S> S angle (vp::Ctx& c)
+    {
+        int cls;
+        S   v = gen_near_angle<S> (c.s, cls);
+        near_angle_label (c, cls, l0);
+        return v;
+    }
+    template <class S> Vec3<S> angle3 (vp::Ctx& c)
+    {
+        Vec3<S> v;
+        for (int i = 0; i < 3; ++i)
+            v[i] = angle<S> (c);
+        return v;
+    }
+};
+enum
+{
+    ISL0 = IL_S_SHORT + 1 // first near / structured label id of inplace_structured_*
+};
+template <class T> static void inplace_structured_case (vp::Ctx& c)
+{
+    typedef typename OtherFloat<T>::type O;
+    InplaceGenNear                       pol;
+    pol.l0 = ISL0;
+    int sk = (int) c.s.below (8);
+    switch (sk)
+    {
+        case 0:
+            c.label (IL_S_INT);
+            inplace_ops<T, int> (c, pol);
+            break;
+        case 1:
+            c.label (IL_S_SHORT);
+            inplace_ops<T, short> (c, pol);
+            break;
+        case 2:
+        case 3:
+            c.label (sizeof (O) > sizeof (T) ? IL_S_FLOAT_WIDER : IL_S_FLOAT_NARROWER);
+            inplace_ops<T, O> (c, pol);
+            break;
+        default:
+            c.label (ISL0 + NL_S_SAME);
+            inplace_ops<T, T> (c, pol);
+            break;
+    }
+}
+// Measured on the unchanged tree (C09_MEASURE, 4e6 cases per element type), error / (eps * sum|terms|), same units as
+// above: see the table after the sub-check definitions.
+#define C09_STRUCT_RULE                                                                                                \
+    "the 12 in-place operations on a STRUCTURED current matrix: one of 11 bases (identity, identity + 2^-k E_ij for every (i,j) incl. last row and column, unit lower / upper triangular, signed permutation, diagonal, affine without translation, near-identity linear block with a translation of 2^10..2^20, projective last column with last row (0..0 1), identity + one off-diagonal entry for every index pair, generic) with, in half of the cases, a per-entry mask over {keep 3/4, exact 0, exact 1, -1, generic}; entries from {0, +-1, small ints, nice, 2^[-4,4], up to 2^20}; parameters from {0, +-2^-k, +-1 +- 2^-k, +-1, up to 2^20, generic}, k = 4..digits+3; angles from {+-0, +-2^-k, j*pi/2 +- 2^-k and the neighbouring values of the type, generic}; parameter element type: same as the matrix (1/2), the other floating type (1/4), int, short (1/8 each); oracle and bounds as inplace_*; non-trivial = a 2^-k class, a masked matrix, a non-affine matrix or an angle beyond one period"
+#define C09_STRUCT_LABELS C09_MIXED_LABELS, C09_NEAR_LABELS
+#define C09_STRUCT_REQUIRED                                                                                            \
+    C09_INPLACE_LABELS, "param_int", "param_short", "param_same_type", "matrix_identity", "matrix_identity_plus_2^-k_Eij", "matrix_unit_lower_triangular", "matrix_unit_upper_triangular", "matrix_signed_permutation", "matrix_diagonal", "matrix_affine_zero_translation", "matrix_near_identity_translation_2^20", "matrix_projective_column_last_row_0001", "matrix_identity_plus_one_offdiagonal", "matrix_generic", "matrix_mask_0_1_-1_generic_applied", "Eij_in_last_column", "Eij_in_last_row", "param_zero", "param_2^-k", "param_+-1+-2^-k", "param_+-1", "param_up_to_2^20", "angle_zero", "angle_2^-k", "angle_j*pi/2+-2^-k"
+VP_RANDOM (inplace_structured_f, 400000, 8000000, C09_STRUCT_RULE) { inplace_structured_case<float> (c); }
+VP_LABELS (inplace_structured_f, C09_STRUCT_LABELS)
+VP_REQUIRE_LABELS (inplace_structured_f, C09_STRUCT_REQUIRED, "param_wider_float(double on float matrix)")
+VP_RANDOM (inplace_structured_d, 400000, 8000000, C09_STRUCT_RULE) { inplace_structured_case<double> (c); }
+VP_LABELS (inplace_structured_d, C09_STRUCT_LABELS)
+VP_REQUIRE_LABELS (inplace_structured_d, C09_STRUCT_REQUIRED, "param_narrower_float(float on double matrix)")
